@@ -124,7 +124,7 @@ func (pcounter *LogProcessCounterSet) SelectMetricKeySet(record *LogRecord) *Log
 	pair, found := pcounter.keySetPairs[string(tempMergedKey)]
 	if !found {
 		// copy transient field values from record for storing into map and counters
-		permKeys := util.DeepCopyStrings(tempKeys)
+		permKeys := util.ToValidUTF8Strings(util.DeepCopyStrings(tempKeys)) // used as label values, which must be valid UTF-8
 		permMergedKey := util.DeepCopyStringFromBytes(tempMergedKey)
 		customCounters := make([]*logCustomCounterImpl, len(pcounter.customCounterVecMap))
 		for _, vec := range pcounter.customCounterVecMap {
